@@ -572,11 +572,40 @@ func runMirror(c *Ctx) {
 							}
 						}
 					}
+					// library form: dup := make(...); maps.Copy(dup, set); g2.X[k] = dup
+					if mk, ok := m.val.(*ssa.MakeMap); ok && !srcOK {
+						for _, ref := range *mk.Referrers() {
+							ci, isCall := ref.(ssa.CallInstruction)
+							if !isCall || len(ci.Common().Args) != 2 || ci.Common().Args[0] != ssa.Value(mk) {
+								continue
+							}
+							if pk, fn := core.StdCallee(ci.Common().StaticCallee()); pk == "maps" && fn == "Copy" {
+								saved := core.PathEnv
+								if m.env != nil {
+									core.PathEnv = m.env // the copy is made inside a step inlined at this call
+								}
+								src := c.classifyMap(gf, ci.Common().Args[1])
+								core.PathEnv = saved
+								if src.level == "inner" && src.field == m.ref.field && core.Root(src.base) == recv && src.key == m.key {
+									srcOK = true
+								}
+							}
+						}
+					}
 					// one-level helper form: g2.X[k] = copier(set) with copier returning a fresh map filled from its parameter
 					if hc, ok := m.val.(*ssa.Call); ok && isMapCopier(p, hc.Common().StaticCallee()) && len(hc.Common().Args) == 1 {
 						src := c.classifyMap(gf, hc.Common().Args[0])
 						if src.level == "inner" && src.field == m.ref.field && core.Root(src.base) == recv && src.key == m.key {
 							freshInner, srcOK = true, true
+						}
+					}
+					// library form: g2.X[k] = maps.Clone(set) — a fresh map with the same entries (the values are weights)
+					if hc, ok := m.val.(*ssa.Call); ok && len(hc.Common().Args) == 1 {
+						if pk, fn := core.StdCallee(hc.Common().StaticCallee()); pk == "maps" && fn == "Clone" {
+							src := c.classifyMap(gf, hc.Common().Args[0])
+							if src.level == "inner" && src.field == m.ref.field && core.Root(src.base) == recv && src.key == m.key {
+								freshInner, srcOK = true, true
+							}
 						}
 					}
 					c.R.Add("COPY", "Copy|outer-"+m.ref.field, name, p.InstrPos(m.in), freshGraph && freshInner && srcOK,
@@ -589,8 +618,25 @@ func runMirror(c *Ctx) {
 					c.R.Add("COPY", "Copy|inner", name, p.InstrPos(m.in), false, "Copy never writes into an existing inner map", "inner-map write present")
 				}
 			}
+			// library form for the vertex table: maps.Copy(copy.hash, g.hash)
+			hashCopied := false
+			for _, ci := range core.Calls(f) {
+				if pk, fn := core.StdCallee(ci.Common().StaticCallee()); pk == "maps" && fn == "Copy" && len(ci.Common().Args) == 2 {
+					dst, src := c.classifyMap(gf, ci.Common().Args[0]), c.classifyMap(gf, ci.Common().Args[1])
+					if dst.level == "hash" {
+						fresh := p.FreshIn(dst.base) && core.Root(dst.base) != recv && src.level == "hash" && core.Root(src.base) == recv
+						hashCopied = true
+						c.R.Add("COPY", "Copy|hash", name, p.InstrPos(ci), fresh, "hash entries are stored into the fresh copy only", fmt.Sprintf("maps.Copy into the fresh copy from the receiver's table=%v", fresh))
+					} else if dst.level != "" && dst.level != "other" {
+						c.R.Add("COPY", "Copy|inner", name, p.InstrPos(ci), false, "Copy never writes into an existing inner map", "maps.Copy into "+dst.level+" map")
+					}
+				}
+			}
 			// constructor form: the copy is assembled from separately built maps (`derive(clone(out), clone(in), hash)`)
 			nOuter := 0
+			if hashCopied {
+				nOuter++
+			}
 			for _, m := range muts {
 				if m.ref.level == "outer" || m.ref.level == "hash" {
 					nOuter++
@@ -1072,23 +1118,41 @@ func isMapCopier(p *core.Prog, h *ssa.Function) bool {
 	if h == nil || !p.InTarget(h) || len(h.Params) != 1 || h.Signature.Results().Len() != 1 {
 		return false
 	}
-	var mk *ssa.MakeMap
-	for _, r := range core.Returns(h) {
-		m, ok := r.Results[0].(*ssa.MakeMap)
-		if !ok || (mk != nil && mk != m) {
+	prm := ssa.Value(h.Params[0])
+	isClone := func(v ssa.Value) bool {
+		cl, ok := v.(*ssa.Call)
+		if !ok || len(cl.Common().Args) != 1 || cl.Common().Args[0] != prm {
 			return false
 		}
-		mk = m
+		pk, fn := core.StdCallee(cl.Common().StaticCallee())
+		return pk == "maps" && fn == "Clone"
 	}
-	if mk == nil {
-		return false
+	// every return is a map made here (filled from the parameter, or left empty where the parameter is nil/empty) or
+	// maps.Clone of the parameter
+	made := map[*ssa.MakeMap]bool{}
+	full := false
+	for _, r := range core.Returns(h) {
+		for _, sv := range core.Sources(r.Results[0]) {
+			switch x := sv.(type) {
+			case *ssa.MakeMap:
+				made[x] = true
+			case *ssa.Call:
+				if !isClone(x) {
+					return false
+				}
+				full = true
+			default:
+				return false
+			}
+		}
 	}
-	filled := false
+	filled := map[*ssa.MakeMap]bool{}
 	bad := false
 	core.Instrs(h, func(in ssa.Instruction) {
 		switch x := in.(type) {
 		case *ssa.MapUpdate:
-			if x.Map != ssa.Value(mk) {
+			mk, _ := x.Map.(*ssa.MakeMap)
+			if mk == nil || !made[mk] {
 				bad = true
 				return
 			}
@@ -1097,18 +1161,61 @@ func isMapCopier(p *core.Prog, h *ssa.Function) bool {
 				bad = true
 				return
 			}
-			if rg, ok := n.Iter.(*ssa.Range); ok && rg.X == ssa.Value(h.Params[0]) && len(core.Lits(core.Guards(x.Block()))) <= 1 {
-				filled = true
+			if rg, ok := n.Iter.(*ssa.Range); ok && rg.X == prm && len(core.Lits(core.Guards(x.Block()))) <= 1 {
+				filled[mk] = true
 			} else {
 				bad = true
 			}
 		case *ssa.Store:
 			bad = true
 		case ssa.CallInstruction:
-			if core.CalleeName(x.Common()) != "builtin.len" {
-				bad = true
+			if core.CalleeName(x.Common()) == "builtin.len" {
+				return
 			}
+			if cl, ok := x.(*ssa.Call); ok && isClone(cl) {
+				return
+			}
+			if pk, fn := core.StdCallee(x.Common().StaticCallee()); pk == "maps" && fn == "Copy" && len(x.Common().Args) == 2 && x.Common().Args[1] == prm {
+				if mk, ok := x.Common().Args[0].(*ssa.MakeMap); ok && made[mk] && len(core.Lits(core.Guards(x.Block()))) == 0 {
+					filled[mk] = true
+					return
+				}
+			}
+			bad = true
 		}
 	})
-	return filled && !bad
+	if bad {
+		return false
+	}
+	for mk := range made {
+		if filled[mk] {
+			full = true
+			continue
+		}
+		// an empty map is returned only where the parameter has nothing to copy
+		okEmpty := false
+		for _, r := range core.Returns(h) {
+			for _, sv := range core.Sources(r.Results[0]) {
+				if sv != ssa.Value(mk) {
+					continue
+				}
+				for _, l := range core.Lits(core.Guards(r.Block())) {
+					if l.Kind == "cmp" && l.Op == token.EQL && l.Pol {
+						if (l.X == prm && core.IsNilConst(l.Y)) || (l.Y == prm && core.IsNilConst(l.X)) {
+							okEmpty = true
+						}
+						if cl, ok := l.X.(*ssa.Call); ok && core.CalleeName(cl.Common()) == "builtin.len" && cl.Common().Args[0] == prm {
+							if k, isK := core.ConstInt(l.Y); isK && k == 0 {
+								okEmpty = true
+							}
+						}
+					}
+				}
+			}
+		}
+		if !okEmpty {
+			return false
+		}
+	}
+	return full
 }
